@@ -93,6 +93,8 @@ var props = map[string]*propCfg{}
 func init() {
 	props["C10"] = &propCfg{Scenarios: []scenarioRef{{"transfer_clean", 2}, {"transfer_byz", 3}}, Level: "exploration",
 		Rule: "plans (layout, knobs, actors, fault steps) generated from the seed; a run is non-trivial if at least one piece write reached the simulated disk; distinct = distinct event-trace hashes among non-trivial runs"}
+	props["C08"] = &propCfg{Scenarios: []scenarioRef{{"hostile", 3}, {"transfer_byz", 1}}, OwnsCrash: true, Level: "exploration",
+		Rule: "1-4 scripted attackers (oversize frame headers without body, raw garbage, truncated frames, well-formed messages with arbitrary field values in arbitrary order incl. hostile extension handshakes / ut_metadata / PEX) connect and re-connect to a real session in every state (metadata unknown via magnet, allocating/verifying with slow disk, downloading, seeding, stop/start) while an honest re-dialling seed transfers; oracles: no crash or hang of the process, oversize header dropped without waiting for (or allocating) the body, honest transfer completes; non-trivial if a piece was written or the torrent was pre-seeded; distinct = distinct event-trace hashes among non-trivial runs"}
 	props["C15"] = &propCfg{Scenarios: []scenarioRef{{"trackers", 1}}, Level: "exploration",
 		Rule: "1-3 torrents announcing to 1-3 tiers of scripted HTTP and UDP trackers whose reply scripts are generated (ok with any 32-bit interval / min interval or none, failure with retry-in, 4xx/5xx, garbage, oversize, no reply, delays; UDP: wrong transaction id, short, duplicate, datagram loss/duplication, connection-id expiry), down windows, start/stop/announce commands, optional seed so that 'completed' happens; every announce is checked online (info-hash, port, peer id vs handshake, counters, event discipline per run, spacing); non-trivial if more than two announces were received; distinct = distinct event-trace hashes among non-trivial runs"}
 	props["C16"] = &propCfg{Scenarios: []scenarioRef{{"trackers", 1}}, OwnsCrash: true, Level: "exploration",
